@@ -271,6 +271,8 @@ type hsOutcome struct {
 	Rest          []byte // client: bytes readable after the handshake (buffer then conn)
 	OnReq         []byte
 	OnResp        []byte
+	OnReqRaw      []byte // the very slices the callbacks were given (an application that keeps its reports)
+	OnRespRaw     []byte
 	HasOnReq      bool
 	HasOnResp     bool
 	Consumed      int
@@ -473,8 +475,8 @@ func runServerConn(r *eng.Run, s hsServer, p net.Conn, sent func() []byte, writa
 		hs, o.Err = s.upgrader().Upgrade(p)
 	case 2:
 		d := wsutil.DebugUpgrader{Upgrader: s.upgrader()}
-		d.OnRequest = func(b []byte) { o.OnReq, o.HasOnReq = append([]byte(nil), b...), true }
-		d.OnResponse = func(b []byte) { o.OnResp, o.HasOnResp = append([]byte(nil), b...), true }
+		d.OnRequest = func(b []byte) { o.OnReq, o.HasOnReq, o.OnReqRaw = append([]byte(nil), b...), true, b }
+		d.OnResponse = func(b []byte) { o.OnResp, o.HasOnResp, o.OnRespRaw = append([]byte(nil), b...), true, b }
 		hs, o.Err = d.Upgrade(p)
 	case 1:
 		br := bufio.NewReader(p)
@@ -607,10 +609,10 @@ func runClientConn(r *eng.Run, c hsClient, p net.Conn, sent func() []byte, restL
 		}
 		dd := &wsutil.DebugDialer{Dialer: d}
 		if c.Debug == 1 || c.Debug == 2 {
-			dd.OnRequest = func(b []byte) { o.OnReq, o.HasOnReq = append([]byte(nil), b...), true }
+			dd.OnRequest = func(b []byte) { o.OnReq, o.HasOnReq, o.OnReqRaw = append([]byte(nil), b...), true, b }
 		}
 		if c.Debug == 1 || c.Debug == 3 {
-			dd.OnResponse = func(b []byte) { o.OnResp, o.HasOnResp = append([]byte(nil), b...), true }
+			dd.OnResponse = func(b []byte) { o.OnResp, o.HasOnResp, o.OnRespRaw = append([]byte(nil), b...), true, b }
 		}
 		var nc net.Conn
 		if c.Reuse && c.Debug != 4 && warm != nil {
@@ -1037,6 +1039,14 @@ func C11(r *eng.Run) {
 	rand.Seed(rseed)
 	cbase := runClient(r, cb, pipeFor(r, cb.wire(t.Server.Written), SegAll))
 	compareOutcome(r, "dialer", cbase, t.Client, fmt.Sprintf("one segment/default buffers vs seg=%d rbuf=%d wbuf=%d", segC, c.RBuf, c.WBuf), t)
+	// The reports of the first round trip, looked at again after all the
+	// further handshakes of this run: an application that keeps what its
+	// callbacks were given still has the same bytes.
+	for _, o := range []*hsOutcome{t.Server, t.Client} {
+		if (o.HasOnReq && !bytes.Equal(o.OnReqRaw, o.OnReq)) || (o.HasOnResp && !bytes.Equal(o.OnRespRaw, o.OnResp)) {
+			r.FailProp("C17", "result_changed_after_later_operations", "the bytes a debug wrapper reported to OnRequest/OnResponse changed after later handshakes of the same process")
+		}
+	}
 }
 
 func nonZero(a, b int) int {
